@@ -170,3 +170,67 @@ def exists_form(ev, outs) -> Optional[Tuple[Term, Term, Term]]:
                     conds = tuple(g for g, _ in rest)
                     return it[0].args[0], each[0], conds[0] if len(conds) == 1 else Op('and', conds)
     return None
+
+
+def devirtualise(ctx, ev, outs: List[Outcome], static_cls: dict, flags: Tuple[str, ...] = (), limit: int = 16) -> List[Outcome]:
+    """Class-hierarchy expansion of virtual calls (double dispatch).  An outcome whose value calls `recv.m(args)` on a
+    receiver of known static class C (given in `static_cls`: term -> class name), where m is defined at several places
+    of C's hierarchy, is split into one outcome per implementation: the implementation is evaluated with self bound to
+    the receiver and the call replaced by what it returns.  Each case carries the guard isinstance(recv, <classes that
+    resolve to this implementation>) and, for every requested constant flag on which those classes agree, the guard
+    (recv.flag, value), so that a rule keyed by such flags reads the class split the way it reads a test of the flag."""
+    from .terms import ClassRef, New, subst
+    res: List[Outcome] = []
+    for o in outs:
+        if o.kind != 'return' or o.value is None:
+            res.append(o)
+            continue
+        site = None
+        for x in walk(o.value):
+            if isinstance(x, Call) and isinstance(x.func, BoundMethod) and x.func.recv in static_cls and not x.kwargs:
+                site = x
+                break
+        if site is None:
+            res.append(o)
+            continue
+        recv, name = site.func.recv, site.func.name
+        base = ctx.model.classes.get(static_cls[recv])
+        if base is None:
+            res.append(o)
+            continue
+        groups = {}
+        for c in ctx.model.subclasses(base):
+            fi = c.resolve(name)
+            if fi is None or fi.kind != 'method':
+                continue
+            groups.setdefault(id(fi), (fi, []))[1].append(c)
+        if not groups or len(groups) > limit:
+            res.append(o)
+            continue
+        for fi, classes in groups.values():
+            params = fi.params()[1:]
+            if len(params) < len(site.args):
+                res.append(o)
+                continue
+            args = {fi.params()[0]: recv}
+            args.update(dict(zip(params, site.args)))
+            # an implementation only a base class defines also serves subclasses that override it: those are other cases
+            typed = classes[0] if len(classes) == 1 else fi.cls
+            extra: List[Guard] = [(Call(Ext('isinstance'), (recv, TupleT(tuple(ClassRef(c.name) for c in classes)))), True)]
+            for flag in flags:
+                vals = set()
+                for c in classes:
+                    pfi = c.resolve(flag)
+                    po = ev.run(pfi, {'self': Sym('self', c.name)}, self_cls=c) if pfi is not None else []
+                    vals.add(po[0].value if len(po) == 1 and po[0].kind == 'return' and isinstance(po[0].value, Const) else None)
+                if len(vals) == 1 and None not in vals:
+                    extra.append((Attr(recv, flag), bool(next(iter(vals)).value)))
+            impl_outs = ev.run(fi, args, self_cls=typed)
+            if all(o2.kind == 'raise' and 'NotImplementedError' in repr(o2.value) and not o2.guards for o2 in impl_outs) and not any(ctx.model.is_leaf(c) for c in classes):
+                continue    # the abstract-method idiom of a base class that is never instantiated itself
+            for o2 in impl_outs:
+                if o2.kind != 'return':
+                    res.append(Outcome(o2.kind, o2.value, o.guards + tuple(extra) + o2.guards, o.effects + o2.effects, o.asserts + o2.asserts, o2.lineno, o.env, o.trace))
+                    continue
+                res.append(Outcome('return', subst(o.value, {site: o2.value}), o.guards + tuple(extra) + o2.guards, o.effects + o2.effects, o.asserts + o2.asserts, o.lineno, o.env, o.trace))
+    return res
